@@ -246,4 +246,4 @@ def run(run, P):
         nsites += len(sites)
         solve(f, Env({'cov': frozenset()}), on_event, None, keys, R, key_fn=lambda e: e.ts.get('cov'), on_branch=on_branch)
     run.notes.append('R-WRITE-CAP: %d parameter pairs with call-site evidence, judged (direct variable-size copies): %s' % (len(prs), judged))
-    run.require(nsites >= (3 if run.cfg == 'base' else 1) or run.fixture_mode, 'R-WRITE-CAP: fewer than 3 variable-size copies into capacity-paired buffers found')
+    run.require_count(nsites >= (3 if run.cfg == 'base' else 1) or run.fixture_mode, 'R-WRITE-CAP: fewer than 3 variable-size copies into capacity-paired buffers found')
